@@ -451,8 +451,9 @@ func c10lookup(p *Prog, r *Report) {
 	r.Check(appendStore != nil && sorted, rule, "PeerSetCache.Set:rounds-sorted", p.pos(set.Pos()), fnName(set), "rounds sorted after every append", "rounds is appended to without being sorted afterwards")
 }
 
-func c10member(p *Prog, r *Report) {
-	const rule = "C10.member"
+func c10member(p *Prog, r *Report) { memberRule(p, r, "C10.member") }
+
+func memberRule(p *Prog, r *Report, rule string) {
 	r.Rule(rule, 2, "_witness returns true only if the creator is in GetPeerSet(round(x)).ByPubKey; _stronglySee counts by ranging over the given set's members")
 	w := p.Func(HG, "Hashgraph", "_witness")
 	if w == nil {
